@@ -24,9 +24,14 @@ spec      : spec/Text.tla.  The functions under test are textwrap + regexes + Ji
             TextTrace.cfg (Inv_Post as invariant) and must be rejected there, and a sample of accepted traces must
             be accepted there.
 Violation keys (one per class):  wrap:<class> / rst:<class>  e.g. wrap:first-line-rewrap:leading-blank,
-            wrap:first-line-rewrap:tab, wrap:blank-text-indexerror, wrap:blank-first-line-indexerror;
+            wrap:first-line-rewrap:tab, wrap:blank-text-indexerror, wrap:blank-first-line-indexerror,
+            rst:tail-quote:pandoc-route, rst:tail-quote:wrap-route;
             fixws:<clause>:<source kind>;  embed:<class>:<origin>:<module>  e.g.
-            embed:triple-quote:message:types/tx.py, embed:trailing-backslash:service:services/svc/client.py.
+            embed:triple-quote:message:types/tx.py, embed:trailing-backslash:service:services/svc/client.py,
+            embed:trailing-quote:service:services/svc/client.py.
+Fixed corner set (both tiers, CornerTexts of Text.tla): for every markup character a comment that takes the converter
+            route of rst() and ends in a double quote, on one line / two lines / with a blank line: run through rst()
+            with the converter parameter tuples, and planted at every origin (quick: the one-line *gadgets* text).
 """
 import ast
 import collections
@@ -243,6 +248,14 @@ def _text_job(job):
     return res
 
 
+def emit_corners(chk):
+    corners, r = tlc.emit_cases('Text', 'Text.emit.corners.cfg', deadlock=False)
+    chk.add_tlc(r, 'Text input emission (fixed corner texts: markup + trailing quote)')
+    if not corners or not all(c['conv'] for c in corners):
+        raise core.MachineryError('no corner texts emitted')
+    return sorted(corners, key=lambda c: c['toks'])
+
+
 def part_text(chk, quick, rnd, pool):
     cases, r = tlc.emit_cases('Text', 'Text.emit.inputs.small.cfg' if quick else 'Text.emit.inputs.full.cfg',
                               deadlock=False, timeout=1500)
@@ -271,6 +284,10 @@ def part_text(chk, quick, rnd, pool):
     units = [('wrap', c['toks'], c['text'], some(wrap_p, c)) for c in cases]
     units += [('rst', c['toks'], c['text'], some(rst_p, c)) for c in cases if not c['conv']]
     convunits = [('rst', c['toks'], c['text'], conv_p) for c in conv]
+    # fixed corner set of the specification (both tiers): converter route + trailing double quote
+    corners = emit_corners(chk)
+    convunits += [('rst', c['toks'], c['text'], conv_p) for c in corners]
+    units += [('wrap', c['toks'], c['text'], wrap_p) for c in corners]
     # jobs of about 20 000 observations; the slow converter calls are spread over all jobs
     jobs, cur, n = [], [], 0
     for u in units:
@@ -288,7 +305,7 @@ def part_text(chk, quick, rnd, pool):
     classes = agg.finish()
     confirm_and_report(chk, classes, agg.ok_sample, 'wrap/rst', quick)
     chk.extra['texts'] = dict(exhaustive=nex, random_walk=len(cases) - nex, wrap_params=len(wrap_p), rst_params=len(rst_p),
-                              converter_texts=len(conv), observations=agg.n)
+                              converter_texts=len(conv), corner_texts=len(corners), observations=agg.n)
     chk.sample(dict(fn='wrap', toks=cases[7]['toks'], text=cases[7]['text'], params=wrap_p[0]))
     chk.sample(dict(fn='rst', toks=cases[-1]['toks'], text=cases[-1]['text'], params=rst_p[-1]))
 
@@ -654,6 +671,13 @@ def part_embed(chk, quick, rnd, pool):
         docs += [c for c in conv if c['conv']]
     if not docs:
         raise core.MachineryError('no docs emitted')
+    # fixed corner docs through the converter route (each generation costs several converter process starts):
+    # quick = the one-line  abc *gadgets* "abc"  at every origin, thorough = every corner text at every origin
+    corners = emit_corners(chk)
+    cdocs = [c for c in corners if not quick or ('mstar' in c['toks'] and 'nl' not in c['toks'] and 'blank' not in c['toks'])]
+    if not cdocs:
+        raise core.MachineryError('corner doc missing')
+    docs += cdocs
     pcases, r = tlc.emit_cases('Text', 'Text.emit.params.cfg', deadlock=False)
     origins = [c['par']['origin'] for c in pcases if c['fn'] == 'embed']
     if sorted(origins) != sorted(ORIGINS):
@@ -683,7 +707,7 @@ def part_embed(chk, quick, rnd, pool):
         nwarn += res['syntax_warnings']
     classes = agg.finish()
     confirm_and_report(chk, classes, agg.ok_sample, 'embed', quick)
-    chk.extra['embedding'] = dict(docs=len(docs), origins=origins, generations=len(units), observations=agg.n,
+    chk.extra['embedding'] = dict(docs=len(docs), corner_docs=len(cdocs), origins=origins, generations=len(units), observations=agg.n,
                                   syntax_warnings_in_emitted_modules=nwarn)
     chk.sample(dict(fn='embed', toks=docs[-1]['toks'], text=docs[-1]['text'], origin='service'))
 
